@@ -77,7 +77,12 @@ StrLaws ==
          /\ (t # <<>>) => LET ps == SplitBy(s, t) IN
                             /\ Concat(ps) = s
                             /\ \A i \in 1..Len(ps) : ps[i] # <<>> /\ (i < Len(ps) => EndsWith(ps[i], t))
-                            /\ Len(ps) = Len(NonOverlapping(s, t)) + (IF EndsWith(s, t) \/ s = <<>> THEN 0 ELSE 1)
+                            \* one piece per (non-overlapping) delimiter, plus the remainder when it is not empty;
+                            \* the remainder contains no delimiter
+                            /\ LET n == Len(NonOverlapping(s, t)) IN
+                                 /\ Len(ps) \in {n, n + 1}
+                                 /\ (Len(ps) = n + 1) => ~HasSub(ps[Len(ps)], t)
+                                 /\ (Len(ps) = n /\ s # <<>>) => EndsWith(s, t)
     /\ \A s \in S2, t \in S2, w \in S2 :
          \* replace: length law and "nothing to replace => unchanged"
          /\ (t # <<>>) => Len(ReplaceSub(s, t, w)) = Len(s) + Len(NonOverlapping(s, t)) * (Len(w) - Len(t))
